@@ -8,6 +8,13 @@ package storage
 // the store (ghost bookkeeping, C07), reads change nothing.
 
 /*@
+// C14: the key prefix that keeps the tables apart in both back ends
+define prefixOf(t) = ite(t == HyperTable, byte(0), ite(t == HyperCacheTable, byte(1), ite(t == HistoryTable, byte(2), ite(t == FSMStateTable, byte(3), byte(4)))))
+
+func Table.Prefix
+  props C14
+  ensures result == prefixOf(t)
+
 func Store.Mutate
   modifies everything, mutateCalls, lastMutations, lastMetadata
   assumes mutateCalls == old(mutateCalls) + 1 && lastMutations == mutations && lastMetadata == metadata
